@@ -429,6 +429,16 @@ func (tm *Termer) load(addr ssa.Value, d int) *Term {
 			if st, ok := ref.(*ssa.Store); ok && st.Addr == a {
 				t.Args = append(t.Args, tm.of(st.Val, d+1))
 			}
+			// a closure that captured the variable may assign it as well
+			if mc, ok := ref.(*ssa.MakeClosure); ok {
+				if fn, ok := mc.Fn.(*ssa.Function); ok {
+					for i, b := range mc.Bindings {
+						if b == ssa.Value(a) && i < len(fn.FreeVars) && closureStores(fn, fn.FreeVars[i], 0) {
+							t.Args = append(t.Args, &Term{Op: "unknown", Name: "assigned inside the closure " + fn.Name()})
+						}
+					}
+				}
+			}
 		}
 		if len(t.Args) == 0 {
 			return &Term{Op: "const", Name: "zero"}
@@ -440,6 +450,34 @@ func (tm *Termer) load(addr ssa.Value, d int) *Term {
 		return &Term{Op: "free", Name: a.Name()}
 	}
 	return &Term{Op: "un", Name: "*", Args: []*Term{tm.of(addr, d+1)}}
+}
+
+// closureStores: does fn (or a closure nested in it that captures the same variable) store to free variable fv?
+func closureStores(fn *ssa.Function, fv *ssa.FreeVar, depth int) bool {
+	if depth > 4 {
+		return true
+	}
+	for _, ref := range *fv.Referrers() {
+		switch x := ref.(type) {
+		case *ssa.Store:
+			if x.Addr == ssa.Value(fv) {
+				return true
+			}
+		case *ssa.MakeClosure:
+			if inner, ok := x.Fn.(*ssa.Function); ok {
+				for i, b := range x.Bindings {
+					if b == ssa.Value(fv) && i < len(inner.FreeVars) && closureStores(inner, inner.FreeVars[i], depth+1) {
+						return true
+					}
+				}
+			}
+		case *ssa.UnOp:
+			// a load
+		default:
+			return true // the address goes somewhere else
+		}
+	}
+	return false
 }
 
 func deref(t types.Type) types.Type {
